@@ -65,6 +65,18 @@ func newCol(rt *refproto.Type) (proto.Column, error) {
 			}
 		}
 	case refproto.KArray:
+		switch rt.Name {
+		case "Array(Array(String))":
+			return proto.NewArray[[]string](new(proto.ColStr).Array()), nil
+		case "Array(Array(UInt64))":
+			return proto.NewArray[[]uint64](new(proto.ColUInt64).Array()), nil
+		case "Array(Array(Nullable(String)))":
+			return proto.NewArray[[]proto.Nullable[string]](new(proto.ColStr).Nullable().Array()), nil
+		case "Array(Array(Array(UInt16)))":
+			return proto.NewArray[[][]uint16](proto.NewArray[[]uint16](new(proto.ColUInt16).Array())), nil
+		case "Array(Array(LowCardinality(String)))":
+			return proto.NewArray[[]string](proto.NewArray[string](new(proto.ColStr).LowCardinality())), nil
+		}
 		if rt.Elems[0].Kind == refproto.KFixed && strings.HasPrefix(rt.Elems[0].Name, "FixedString(") {
 			switch rt.Elems[0].Size {
 			case 8, 16, 32, 64, 128, 256, 512:
@@ -315,6 +327,17 @@ func Append(col any, rt *refproto.Type, v any) error {
 	case *proto.ColDateTime64:
 		c.AppendRaw(proto.DateTime64(v.(int64)))
 		return nil
+	case *proto.ColEnum:
+		for _, d := range rt.Enum {
+			if d.Val == v.(int64) {
+				c.Append(d.Name)
+				return nil
+			}
+		}
+		return fmt.Errorf("gen: %d is not a value of %s", v, rt.Name)
+	case *proto.ColInterval:
+		c.Append(proto.Interval{Scale: c.Scale, Value: v.(int64)})
+		return nil
 	case proto.ColTuple:
 		tu := v.(refproto.Tup)
 		for i, e := range c {
@@ -359,6 +382,18 @@ func Read(col any, rt *refproto.Type, i int) (any, error) {
 		return uint64(c.Data[i]), nil
 	case *proto.ColDateTime64:
 		return int64(c.Data[i]), nil
+	case *proto.ColEnum:
+		name := c.Row(i)
+		for _, d := range rt.Enum {
+			if d.Name == name {
+				return d.Val, nil
+			}
+		}
+		// the column was inferred from another (e.g. damaged) definition: the
+		// accessor worked, the name stands for itself
+		return name, nil
+	case *proto.ColInterval:
+		return c.Row(i).Value, nil
 	case proto.ColTuple:
 		tu := make(refproto.Tup, len(c))
 		for j, e := range c {
